@@ -333,8 +333,8 @@ package sio
 //@   ghost locks int = 0
 //@   callsite Lock
 //@     update locks = locks + 1
-//@   callsite Call
-//@     requires f.called [C03.call.flagfirst]
+//@   callsite (*ackHandler).invoke skip
+//@     requires recv == f && f.called [C03.call.flagfirst]
 //@     update invoked = invoked + 1
 //@   ensures locks == 1 [C03.call.atomic]
 //@   ensures old(f.timedOut) ==> invoked == 0 && err == nil [C03.call.aftertimeout]
@@ -352,8 +352,8 @@ package sio
 //@   callsite timeoutFunc skip
 //@     requires h.timedOut [C03.timeout.flagfirst]
 //@     update purged = purged + 1
-//@   callsite Call
-//@     requires h.timedOut && purged == 1 [C03.timeout.order]
+//@   callsite (*ackHandler).invoke skip
+//@     requires recv == h && h.timedOut && purged == 1 [C03.timeout.order]
 //@     update invoked = invoked + 1
 //@   ensures locks == 1 [C03.timeout.atomic]
 //@   ensures old(h.called) ==> invoked == 0 && purged == 0 [C03.timeout.exclusive]
@@ -1314,3 +1314,63 @@ package sio
 //@   opt safety off
 //@   modifies *
 //@   ensures len(result) == 0 || fresh(result) [C16.copy.nspSocketStore.getAll]
+
+//@ func (*serverSocket).In
+//@   opt safety off
+//@   ghost via int = 0
+//@   ghost res *adapter.BroadcastOperator = nil
+//@   callsite (*serverSocket).To skip
+//@     requires recv == s && arg0 == room [C04.sender.in]
+//@     update via = via + 1
+//@     updateafter res = result
+//@   ensures via == 1 && result == res [C04.sender.in.alias]
+//@ func (*serverSocket).Local
+//@   opt safety off
+//@   ghost base *adapter.BroadcastOperator = nil
+//@   callsite (*serverSocket).newBroadcastOperator skip
+//@     updateafter base = result
+//@   callsite (*BroadcastOperator).Local skip
+//@     requires recv == base [C04.sender.local]
+
+// C03 (right reply): a server-side ack id comes from the NAMESPACE-wide counter, so it is unique among all sockets of
+// the namespace - a late reply meant for a previous socket of a reconnecting client can never match a callback of the
+// new one. The counter hands out each value once.
+//@ func (*Namespace).nextAckID
+//@   opt safety off
+//@   modifies n.ackID
+//@   onstore ackID
+//@     requires recv == n && wheld(n.ackMu) [C03.nsp.ackid.locked]
+//@   ensures result == old(n.ackID) && n.ackID == (old(n.ackID) == 18446744073709551615 ? 0 : old(n.ackID) + 1) [C03.nsp.ackid.fresh]
+
+//@ func (*serverSocket).registerAckHandler
+//@   opt safety off
+//@   panics_if true
+//@   ghost got int = 0
+//@   ghost nid int = 0
+//@   callsite (*Namespace).nextAckID skip
+//@     requires recv == s.nsp && got == 0 [C03.srv.ackid.namespace.wide]
+//@     update got = got + 1
+//@     updateafter nid = result
+//@   callsite newAckHandler skip
+//@   callsite newAckHandlerWithTimeout skip
+//@   ensures got == 1 && id == nid [C03.srv.ackid.used]
+//@   ensures (id in s.acks) [C03.srv.ackid.registered]
+
+// The user's function gets one prepared value per parameter; a variadic function must be entered through CallSlice
+// (Call would take the slice of the variadic parameter for a single element and panic), any other through Call.
+//@ func (*ackHandler).invoke
+//@   opt safety off
+//@   callback
+//@   ghost asked bool = false
+//@   ghost isvar bool = false
+//@   ghost invoked int = 0
+//@   callsite IsVariadic
+//@     updateafter asked = true
+//@     updateafter isvar = result
+//@   callsite Call skip
+//@     requires asked && !isvar && arg0 == args [C03.invoke.call]
+//@     update invoked = invoked + 1
+//@   callsite CallSlice skip
+//@     requires asked && isvar && arg0 == args [C03.invoke.variadic.through.callslice]
+//@     update invoked = invoked + 1
+//@   ensures invoked == 1 [C03.invoke.once]
